@@ -2726,7 +2726,7 @@ template< size_t L> inline
    FixedString< L>& FixedString< L>::replaceImpl( size_t pos1, size_t count1,
       const char* str, size_t pos2, size_t count2) noexcept
 {
-   if (pos1 >= mLength)
+   if (pos1 > mLength)
       return *this;
    size_t  copy_len = count2;
    if (count1 >= mLength - pos1)
